@@ -287,9 +287,12 @@ func (r *AuthnRequest) Redirect(relayState string, sp *ServiceProvider) (*url.UR
 	base64Writer := base64.NewEncoder(base64.StdEncoding, &requestStr)
 	compressedWriter, _ := flate.NewWriter(base64Writer, 9)
 	doc := etree.NewDocument()
-	doc.WriteSettings = canonicalWriteSettings
 	doc.SetRoot(r.Element())
-	if _, err := doc.WriteTo(compressedWriter); err != nil {
+	reqBuf, err := serializeDocument(doc)
+	if err != nil {
+		return nil, err
+	}
+	if _, err := compressedWriter.Write(reqBuf); err != nil {
 		return nil, err
 	}
 	if err := compressedWriter.Close(); err != nil {
@@ -656,9 +659,8 @@ func (sp *ServiceProvider) MakePostAuthenticationRequest(relayState string) ([]b
 // Post returns an HTML form suitable for using the HTTP-POST binding with the request
 func (r *AuthnRequest) Post(relayState string) []byte {
 	doc := etree.NewDocument()
-	doc.WriteSettings = canonicalWriteSettings
 	doc.SetRoot(r.Element())
-	reqBuf, err := doc.WriteToBytes()
+	reqBuf, err := serializeDocument(doc)
 	if err != nil {
 		panic(err)
 	}
@@ -1420,9 +1422,12 @@ func (r *LogoutRequest) Redirect(relayState string) *url.URL {
 	w1 := base64.NewEncoder(base64.StdEncoding, w)
 	w2, _ := flate.NewWriter(w1, 9)
 	doc := etree.NewDocument()
-	doc.WriteSettings = canonicalWriteSettings
 	doc.SetRoot(r.Element())
-	if _, err := doc.WriteTo(w2); err != nil {
+	buf, err := serializeDocument(doc)
+	if err != nil {
+		panic(err)
+	}
+	if _, err := w2.Write(buf); err != nil {
 		panic(err)
 	}
 	if err := w2.Close(); err != nil {
@@ -1458,9 +1463,8 @@ func (sp *ServiceProvider) MakePostLogoutRequest(nameID, relayState string) ([]b
 // Post returns an HTML form suitable for using the HTTP-POST binding with the request
 func (r *LogoutRequest) Post(relayState string) []byte {
 	doc := etree.NewDocument()
-	doc.WriteSettings = canonicalWriteSettings
 	doc.SetRoot(r.Element())
-	reqBuf, err := doc.WriteToBytes()
+	reqBuf, err := serializeDocument(doc)
 	if err != nil {
 		panic(err)
 	}
@@ -1536,9 +1540,12 @@ func (r *LogoutResponse) Redirect(relayState string) *url.URL {
 	w1 := base64.NewEncoder(base64.StdEncoding, w)
 	w2, _ := flate.NewWriter(w1, 9)
 	doc := etree.NewDocument()
-	doc.WriteSettings = canonicalWriteSettings
 	doc.SetRoot(r.Element())
-	if _, err := doc.WriteTo(w2); err != nil {
+	buf, err := serializeDocument(doc)
+	if err != nil {
+		panic(err)
+	}
+	if _, err := w2.Write(buf); err != nil {
 		panic(err)
 	}
 	if err := w2.Close(); err != nil {
@@ -1574,9 +1581,8 @@ func (sp *ServiceProvider) MakePostLogoutResponse(logoutRequestID, relayState st
 // Post returns an HTML form suitable for using the HTTP-POST binding with the LogoutResponse.
 func (r *LogoutResponse) Post(relayState string) []byte {
 	doc := etree.NewDocument()
-	doc.WriteSettings = canonicalWriteSettings
 	doc.SetRoot(r.Element())
-	reqBuf, err := doc.WriteToBytes()
+	reqBuf, err := serializeDocument(doc)
 	if err != nil {
 		panic(err)
 	}
@@ -1845,13 +1851,12 @@ func elementToBytes(el *etree.Element) ([]byte, error) {
 	}
 
 	doc := etree.NewDocument()
-	doc.WriteSettings = canonicalWriteSettings
 	doc.SetRoot(el.Copy())
 	for space, uri := range namespaces {
 		doc.Root().CreateAttr("xmlns:"+space, uri)
 	}
 
-	return doc.WriteToBytes()
+	return serializeDocument(doc)
 }
 
 // unmarshalElement serializes el into v by serializing el and then parsing it with xml.Unmarshal.
